@@ -67,6 +67,7 @@ def c05(ctx: Ctx) -> None:
 def c01(ctx: Ctx) -> None:
     RE.rule_definite_assignment(ctx)
     RE.rule_call_arity(ctx)
+    RP.rule_refine_wrapper(ctx)
     RA.rule_soundness(ctx, RA.POLY, ["compose"])
     RK.rule_term_kernels(ctx, ["multiply", "add", "remove", "substitute", "isolate"])
     RP.rule_dispatcher(ctx)
@@ -82,6 +83,7 @@ def c01(ctx: Ctx) -> None:
 def c02(ctx: Ctx) -> None:
     RE.rule_definite_assignment(ctx)
     RE.rule_call_arity(ctx)
+    RP.rule_refine_wrapper(ctx)
     RA.rule_soundness(ctx, RA.POLY, ["quotient"])
     RK.rule_term_kernels(ctx, ["multiply", "add", "remove", "substitute", "isolate"])
     RP.rule_dispatcher(ctx)
@@ -135,6 +137,7 @@ def c15(ctx: Ctx) -> None:
 def c16(ctx: Ctx) -> None:
     RE.rule_definite_assignment(ctx)
     RE.rule_call_arity(ctx)
+    RK.rule_kernels_exact(ctx)
     RK.rule_term_kernels(ctx, ["rename", "remove", "copy"])
     RP.rule_rename_variables_chain(ctx)
     RS.rule_termlist_rename(ctx)
@@ -192,6 +195,7 @@ def c07(ctx: Ctx) -> None:
 def c11(ctx: Ctx) -> None:
     RE.rule_definite_assignment(ctx)
     RE.rule_call_arity(ctx)
+    RK.rule_kernels_exact(ctx)
     P = RP.PTL
     RP.rule_contains_behavior(ctx)
     RP.rule_matrix_provenance(ctx, RP.PTL + "is_polytope_empty")
@@ -269,9 +273,9 @@ def c14(ctx: Ctx) -> None:
     RE.rule_asserts(ctx)
     RE.rule_reader_validates(ctx)
     RE.rule_validator_covers(ctx)
+    RE.rule_validator_faults(ctx)
     RE.rule_validator_types(ctx)
     RE.rule_validator_refuses(ctx)
-    RE.rule_validator_faults(ctx)
     RE.rule_reader_faults(ctx)
     RE.rule_optional_results(ctx)
     RE.rule_solver_dict_keys(ctx)
@@ -300,6 +304,7 @@ def c14(ctx: Ctx) -> None:
 def c19(ctx: Ctx) -> None:
     RE.rule_definite_assignment(ctx)
     RE.rule_call_arity(ctx)
+    RK.rule_kernels_exact(ctx)
     RS.rule_eq(ctx)
     RS.rule_hash(ctx)
     RS.rule_hash_order(ctx)
